@@ -4,7 +4,9 @@ proof  : lean/Pyunicorn/Properties/C14.lean (kernel loops = chord / horizontal
          criterion, missing samples, affine invariance, time reversal,
          retarded + advanced = degree, clustering counters; round 2: the matrix
          as state, the float32 kernel under order faithfulness, closeness and
-         boundary-corrected measures under reversal, path lengths = least walks)
+         boundary-corrected measures under reversal, path lengths = least walks;
+         round 3: betweenness-type measures under reversal, float kernel subgraph of the
+         exact graph, order invariance of the horizontal graph, loop bounds from the source)
 tie    : exact correspondence of the Lean model (lean/Pyunicorn/Model/Visibility.lean)
          with the compiled kernels at the kernel boundary and with
          `VisibilityGraph` at the object level, on data whose float32 slope
@@ -170,7 +172,9 @@ def call_kernel(K, kind, x, t, N, mv=None):
     return enc_mat(A)
 
 
-FORMS = ("f64", "f32", "strided", "negstride", "int", "held")
+FORMS = ("f64", "f32", "strided", "negstride", "int", "held", "x64_t32", "x32_tint")
+# round 3: the timings in a form of their own (float32 timings under float64 values, int64 timings
+# under float32 values); plain Python lists are not accepted by to_cy (the docstring asks for arrays)
 
 
 def as_caller_array(v, form):
@@ -198,7 +202,8 @@ def make_vg(VG, x, t, missing, horizontal, form="f64", silence_level=3):
                    horizontal=not horizontal, silence_level=3)
         return VG(first.time_series, timings=None if t is None else first.timings,
                   missing_values=missing, horizontal=horizontal, silence_level=silence_level)
-    return VG(as_caller_array(x, form), timings=None if t is None else as_caller_array(t, form),
+    xform, tform = {"x64_t32": ("f64", "f32"), "x32_tint": ("f32", "int")}.get(form, (form, form))
+    return VG(as_caller_array(x, xform), timings=None if t is None else as_caller_array(t, tform),
               missing_values=missing, horizontal=horizontal, silence_level=silence_level)
 
 
@@ -217,6 +222,46 @@ def path_observables(vg):
         bcd = [canon_rat(v, 10 ** 6) for v in vg.boundary_corrected_degree()]
         bcc = [canon_orat(v) for v in vg.boundary_corrected_closeness()]
     return rcl, acl, bcd, bcc
+
+
+def betw_observables(vg):
+    """retarded / advanced / trans betweenness as canonical rationals"""
+    import warnings
+    with warnings.catch_warnings(), np.errstate(all="ignore"):
+        warnings.simplefilter("ignore")
+        return [",".join(canon_rat(v, 10 ** 7) for v in getattr(vg, m)()) or "-"
+                for m in ("retarded_betweenness", "advanced_betweenness", "trans_betweenness")]
+
+
+def betw_definition(A, i, src, tgt):
+    """definition, independent of the model and of the kernel: over ordered (target, source)
+    pairs the fraction of shortest paths that pass through i; the shortest paths are enumerated
+    one by one (i is neither a source nor a target)"""
+    n = len(A)
+    INF = 10 ** 9
+    d = [[0 if a == b else (1 if A[a][b] else INF) for b in range(n)] for a in range(n)]
+    for k in range(n):
+        for a in range(n):
+            for b in range(n):
+                if d[a][k] + d[k][b] < d[a][b]:
+                    d[a][b] = d[a][k] + d[k][b]
+
+    def paths(a, b):
+        if a == b:
+            yield (a,)
+            return
+        for c in range(n):
+            if A[a][c] and d[c][b] == d[a][b] - 1:
+                for rest in paths(c, b):
+                    yield (a,) + rest
+    tot = Fr(0)
+    for tg in tgt:
+        for s in src:
+            if s == tg or s == i or tg == i or d[tg][s] >= INF:
+                continue
+            ps = list(paths(tg, s))
+            tot += Fr(sum(1 for p in ps if i in p), len(ps))
+    return tot
 
 
 def class_answer(VG, x, t, missing, horizontal, paths=False, form="f64", vg=None):
@@ -285,6 +330,8 @@ def oracle_case(VG, x, t, missing, horizontal, transforms=True, paths=True, form
     has_nan = any(v is None for v in x)
     close = 2 <= n <= 12
     ans, obs = class_answer(VG, x, t, missing, horizontal, paths=close, form=form)
+    if obs is not None and paths and 2 <= n <= 8:
+        obs["betw"] = betw_observables(obs["vg"])
     if obs is None:
         out.append((sig(missing, horizontal, "raises", has_nan, error=ans),
                     f"constructor {ans} on increasing exact timings", {"observed": ans}))
@@ -355,6 +402,17 @@ def oracle_case(VG, x, t, missing, horizontal, transforms=True, paths=True, form
                         f"retarded/advanced closeness {obs['rcl']}/{obs['acl']}, boundary-corrected "
                         f"degree {obs['bcd']}; by definition {er}/{ea}, {eb}",
                         {"observed": [obs["rcl"], obs["acl"], obs["bcd"]]}))
+    # betweenness-type measures from their definition (shortest paths enumerated)
+    if "betw" in obs:
+        Al = A.tolist()
+        eb = [",".join(enc_fr(betw_definition(Al, i, sr(i), tg(i))) for i in range(n))
+              for sr, tg in ((lambda i: range(i), lambda i: range(i)),
+                             (lambda i: range(i + 1, n), lambda i: range(i + 1, n)),
+                             (lambda i: range(i), lambda i: range(i + 1, n)))]
+        if obs["betw"] != eb:
+            out.append((sig(missing, horizontal, "betweenness", has_nan),
+                        f"retarded/advanced/trans betweenness {obs['betw']}; shortest paths counted "
+                        f"one by one give {eb}", {"observed": obs["betw"], "expected": eb}))
     if not transforms:
         return out
     # positive affine maps of values and times
@@ -407,6 +465,15 @@ def oracle_case(VG, x, t, missing, horizontal, transforms=True, paths=True, form
                         "the boundary-corrected measures",
                         {"forward": [obs["rcl"], obs["acl"], obs["bcd"], obs["bcc"]],
                          "reversed": [orv["rcl"], orv["acl"], orv["bcd"], orv["bcc"]]}))
+        elif "betw" in obs and (lambda b2: b2[0].split(",") != obs["betw"][1].split(",")[::-1] or
+                                b2[1].split(",") != obs["betw"][0].split(",")[::-1] or
+                                b2[2].split(",") != obs["betw"][2].split(",")[::-1])(
+                                    betw_observables(orv["vg"])):
+            out.append((sig(missing, horizontal, "reversal-path-measures", has_nan,
+                            measure="betweenness"),
+                        "time reversal does not exchange retarded and advanced betweenness / mirror "
+                        "trans_betweenness",
+                        {"forward": obs["betw"], "reversed": betw_observables(orv["vg"])}))
         elif paths and 3 <= n <= 7:
             # path-based time-directed measures (implementation only, tolerance 1e-9;
             # NaN = mean over an empty past/future, on both sides)
@@ -560,6 +627,135 @@ def usable(x, t, big=False):
 
 
 # --------------------------------------------------------------------------
+# round 3: query-order histories on one object, hubs
+# --------------------------------------------------------------------------
+
+OWN_METHODS = ["visibility_relations", "visibility_relations_horizontal", "visibility",
+               "visibility_single", "retarded_degree", "advanced_degree",
+               "retarded_local_clustering", "advanced_local_clustering", "retarded_closeness",
+               "advanced_closeness", "retarded_betweenness", "advanced_betweenness",
+               "trans_betweenness", "boundary_corrected_degree", "boundary_corrected_closeness",
+               "degree"]
+
+
+def call_method(vg, m):
+    import warnings
+    with warnings.catch_warnings(), np.errstate(all="ignore"):
+        warnings.simplefilter("ignore")
+        if m == "visibility":
+            r = [vg.visibility(0, b) for b in range(vg.N)]
+        elif m == "visibility_single":
+            r = vg.visibility_single(vg.N - 1)
+        else:
+            r = getattr(vg, m)()
+        return np.array(r, dtype=float)      # a copy: the harness never writes into a result
+
+
+def query_order_histories(ctx, VG, rng, ocases, quick):
+    """every ordered pair (m1, m2) of the class's own methods on ONE object: the answer of m2
+    after m1 must be the answer of m2 on a fresh twin (cached or shared arrays edited in place
+    by one method show up in the next); then all methods once more in a random order"""
+    cand = [c for c in ocases if 5 <= len(c[0]) <= 9 and len(set(c[0])) > 2]
+    picked = []
+    for want in ((False, False), (True, False), (True, True), (False, True)):
+        cs = [c for c in cand if (c[2], c[3]) == want and
+              (any(v is None for v in c[0]) == want[0])]
+        picked += rng.sample(cs, min(len(cs), 1 if quick else 3))
+    for xx, t, missing, hor, form in picked:
+        try:
+            ref = {m: call_method(make_vg(VG, xx, t, missing, hor, form), m) for m in OWN_METHODS}
+        except (ZeroDivisionError, IndexError):
+            continue
+        bad = None
+        for m1 in OWN_METHODS:
+            for m2 in OWN_METHODS:
+                vg = make_vg(VG, xx, t, missing, hor, form)
+                call_method(vg, m1)
+                r2 = call_method(vg, m2)
+                ctx.count("history:ordered-pairs")
+                if not np.array_equal(r2, ref[m2], equal_nan=True):
+                    bad = bad or (f"{m2}() after {m1}()", ref[m2], r2)
+        vg = make_vg(VG, xx, t, missing, hor, form)
+        for rep in range(2):
+            order = list(OWN_METHODS)
+            rng.shuffle(order)
+            for m in order:
+                r = call_method(vg, m)
+                ctx.count("history:long-sequence-queries")
+                if not np.array_equal(r, ref[m], equal_nan=True):
+                    bad = bad or (f"{m}() in the sequence {order} (pass {rep + 1})", ref[m], r)
+        ctx.case(("history", tuple(xx), None if t is None else tuple(t), missing, hor), True)
+        if bad:
+            ctx.fail(sig(missing, hor, "history", any(v is None for v in xx)),
+                     f"{bad[0]} differs from the answer of a fresh object",
+                     {"time_series": [enc_fr(v) for v in xx],
+                      "timings": None if t is None else [enc_fr(v) for v in t],
+                      "missing_values": missing, "horizontal": hor, "caller_array": form,
+                      "fresh": bad[1].tolist(), "observed": bad[2].tolist()})
+
+
+def hub_cases(ctx, VG, rng, quick):
+    """hubs and sizes where small integer types wrap (degree > 127, > 255): the convex series
+    k^2 (every pair sees each other: complete graph, exact in float32), and a random integer
+    series of a few hundred samples against the criterion evaluated in integer arithmetic"""
+    for n in ((130, 260) if quick else (130, 260, 300, 520)):
+        x = [Fr(k * k) for k in range(n)]
+        for missing, hor in ((False, False), (True, False)):
+            vg = make_vg(VG, x, None, missing, hor)
+            A = np.array(vg.adjacency)
+            ctx.count("hub:convex-complete-graph")
+            ctx.case(("hub", n, missing, hor), True)
+            ok = np.array_equal(A, 1 - np.eye(n, dtype=A.dtype))
+            rd, ad, dg = vg.retarded_degree(), vg.advanced_degree(), vg.degree()
+            ok2 = np.array_equal(rd, np.arange(n)) and np.array_equal(ad, n - 1 - np.arange(n)) \
+                and np.array_equal(dg, np.full(n, n - 1))
+            rc, ac = vg.retarded_local_clustering(), vg.advanced_local_clustering()
+            ok3 = np.array_equal(rc, (np.arange(n) >= 2).astype(float)) and \
+                np.array_equal(ac, (np.arange(n) <= n - 3).astype(float))
+            if not (ok and ok2 and ok3):
+                ctx.fail(sig(missing, hor, "hub", False, n=n),
+                         f"convex series k^2, {n} samples: "
+                         + ("graph is not complete" if not ok else
+                            "directional degrees are not i / N-1-i / N-1" if not ok2 else
+                            "directional clustering is not 1"),
+                         {"n": n, "series": "k*k", "missing_values": missing, "horizontal": hor,
+                          "row_sums": A.sum(axis=1).tolist()[:8],
+                          "retarded_degree": rd.tolist()[:8], "advanced_degree": ad.tolist()[-8:],
+                          "retarded_clustering": rc.tolist()[:8]})
+    for rep in range(1 if quick else 4):
+        n = rng.choice([150, 200, 280])
+        xi = np.array([rng.randint(0, 12) for _ in range(n)], dtype=np.int64)
+        hub = rng.randrange(n)
+        xi[hub] = 4000          # one sample towers over the rest
+        ti = np.arange(n, dtype=np.int64)
+        if not f32_exact([Fr(int(v)) for v in xi], [Fr(int(v)) for v in ti]):
+            ctx.count("generator:rejected-not-float32-exact")
+            continue
+        for hor in (False, True):
+            vg = VG(xi.astype(np.float64), silence_level=3, horizontal=hor)
+            A = np.array(vg.adjacency)
+            E = np.zeros((n, n), dtype=A.dtype)
+            for a in range(n):
+                for b in range(a + 1, n):
+                    ks = slice(a + 1, b)
+                    if hor:
+                        v = bool(np.all(xi[ks] < min(xi[a], xi[b])))
+                    else:
+                        v = bool(np.all((xi[ks] - xi[a]) * (ti[b] - ti[a]) <
+                                        (xi[b] - xi[a]) * (ti[ks] - ti[a])))
+                    E[a, b] = E[b, a] = int(v)
+            ctx.count("hub:random-integer-series-with-tower")
+            ctx.case(("tower", n, hor, xi.tobytes().hex()), True)
+            d = vg.retarded_degree() + vg.advanced_degree()
+            if not np.array_equal(A, E) or not np.array_equal(d, vg.degree()) or \
+                    not np.array_equal(d, E.sum(axis=1)):
+                bad = [(int(a), int(b)) for a, b in zip(*np.nonzero(A != E)) if a < b][:5]
+                ctx.fail(sig(False, hor, "hub", False, n=n),
+                         f"{n} integer samples with a tower at {hub}: adjacency / degrees differ from "
+                         f"the criterion in integer arithmetic (pairs {bad}, max degree {int(E.sum(axis=1).max())})",
+                         {"x": xi.tolist(), "horizontal": hor, "pairs": bad,
+                          "retarded_plus_advanced": d.tolist()[:10]})
+
 
 def run(ctx):
     from pyunicorn.timeseries._ext import numerics as K
@@ -583,7 +779,10 @@ def run(ctx):
                 "dynamic range, NaN); object level: VisibilityGraph adjacency, retarded/advanced degree, "
                 "clustering, closeness, boundary-corrected degree/closeness for caller arrays in float64 / "
                 "float32 / int64 / strided / negative-stride form and arrays held by another object, "
-                "multi-step histories on one object, wrappers, silence_level=0; "
+                "multi-step histories on one object, wrappers, silence_level=0; round 3: betweenness-type measures "
+                "(N <= 8), every ordered pair of the 16 own methods on one object, hubs of 130..520 samples, NaN at the "
+                "ends, timings in another float width / integer type than the values, nearly collinear data with exact "
+                "differences (float links subset of exact links), generic float64 data for the horizontal graph; "
                 "distinct = distinct (request); non-trivial = at least 3 samples, not all equal")
     ctx.trusted = common.DEFAULT_TRUSTED + [
         "float32: kernelNR rndF32 (differences and quotient rounded to binary32, RNE, no overflow) is "
@@ -591,7 +790,12 @@ def run(ctx):
         "nvg_float32_eq_exact reduces it to the exact model under `Faithful`, which the Lean driver "
         "decides for the series of the exact correspondence (f32_exact selects them independently)",
         "Network.path_lengths (igraph) is modelled by its specification pathLen (least number of links, "
-        "theorem path_lengths_are_least_walk_lengths); nsi_betweenness-based measures are not modelled"]
+        "theorem path_lengths_are_least_walk_lengths)",
+        "retarded/advanced/trans betweenness: modelled by property C03's model of the kernel _nsi_betweenness; the "
+        "reversal theorems are about the pair-dependency definition betwSpec; kernel model == definition is compared "
+        "on every sampled case (driver), not proved",
+        "nvg_float_subgraph assumes a monotone rounding; rndF32 is not proved monotone (the theorem's conclusion is "
+        "checked on the compiled kernels for data with exact differences)"]
     ctx.proofs()
 
     # ---------------- the series pool ---------------------------------------
@@ -796,6 +1000,7 @@ def run(ctx):
     phase("clustering-kernels")
     # ---------------- object level: correspondence + oracle -------------------
     oreqs, oimpl, ocases = [], [], []
+    breqs, bimpl = [], []          # round 3: betweenness-type measures (kernel model and definition)
     hreqs, himpl = [], []          # visibility_relations*() called again on a live object
     objs = [p for p in pool if len(p[0]) >= 2]
     small = [p for p in objs if p[2].startswith("exhaustive")]
@@ -805,10 +1010,22 @@ def run(ctx):
     for n in (2, 3, 6):
         objs.append(([None] * n, None, "degenerate:all-missing"))
         objs.append(([None] * (n - 1) + [Fr(1)], None, "degenerate:one-present"))
+    # round 3: missing values at the first / last / both ends (and runs of them)
+    for x0, t0, tag in rng.sample(rnd, min(len(rnd), 25 if quick else 250)):
+        n0 = len(x0)
+        if n0 < 3:
+            continue
+        k1, k2 = rng.choice([(1, 0), (0, 1), (1, 1), (2, 1), (1, 2)])
+        if k1 + k2 >= n0:
+            continue
+        objs.append(([None] * k1 + list(x0[k1:n0 - k2]) + [None] * k2, t0, "nan-at-the-ends"))
     for x, t, tag in objs:
         n = len(x)
         if all(v is None for v in x):
             variants = [(x, True, False), (x, True, True)]
+        elif tag == "nan-at-the-ends":
+            variants = [(x, True, False), (x, True, True)]
+            ctx.count("series:nan-at-the-ends")
         else:
             variants = [(x, False, False), (x, False, True), (x, True, False), (x, True, True)]
         for p in ((0.15, 0.4) if n > 2 else (0.5,)):
@@ -835,6 +1052,12 @@ def run(ctx):
             ctx.count(f"caller-array:{form}")
             if paths:
                 ctx.count("object:with-closeness-and-boundary-corrected")
+            if obs is not None and 2 <= n <= 8 and rng.random() < (0.08 if quick else 0.05):
+                b3 = betw_observables(obs["vg"])
+                breqs.append(f"betw {enc_vals(xx)} {'-' if t is None else enc_vals(t)} "
+                             f"{int(missing)} {int(hor)}")
+                bimpl.append("|".join(b3 + b3))
+                ctx.count("object:with-betweenness")
             # multi-step history on the live object: every measure again in another order,
             # both visibility_relations*() methods called again (the one the constructor did
             # not use is a non-default path), the wrappers; nothing may change
@@ -866,6 +1089,11 @@ def run(ctx):
     ctx.correspond("Lean classMat/degree/clustering/closeness model == VisibilityGraph", oreqs, oimpl)
     ctx.correspond("Lean classMat == visibility_relations() / visibility_relations_horizontal() "
                    "called again on live objects", hreqs, himpl)
+    ctx.correspond("retarded/advanced/trans betweenness: C03's kernel model (retBetw, advBetw, transBetw) "
+                   "== pair-dependency definition betwSpec == VisibilityGraph", breqs, bimpl)
+    ctx.extra["betweenness_cases_compared"] = len(breqs)
+    query_order_histories(ctx, VG, rng, ocases, quick)
+    hub_cases(ctx, VG, rng, quick)
     # non-default verbosity: the constructor prints, the graph is the same
     import contextlib
     import io
@@ -896,13 +1124,14 @@ def run(ctx):
     nfail = 0
     for k, (xx, t, missing, hor, form) in enumerate(ocases):
         do_tr = len(xx) <= 8 or rng.random() < 0.3
-        do_paths = do_tr and 3 <= len(xx) <= 7 and rng.random() < (0.15 if quick else 0.03)
+        do_paths = 2 <= len(xx) <= 8 and rng.random() < (0.2 if quick else 0.15)
         viol = oracle_case(VG, xx, t, missing, hor, transforms=do_tr, paths=do_paths, form=form)
         ctx.count("oracle:cases")
         if do_tr:
             ctx.count("oracle:with-affine-and-reversal")
         if do_paths:
-            ctx.count("oracle:with-betweenness-under-reversal")
+            ctx.count("oracle:with-betweenness-from-definition" +
+                      ("-and-under-reversal" if do_tr else ""))
         if viol:
             nfail += 1
             if nfail <= 40:
@@ -989,6 +1218,101 @@ def run(ctx):
                    "(exact series and order-faithful generic float32 data)", rreqs, rimpl)
     ctx.extra["float32_model_calls_compared"] = len(rreqs)
     phase("float32-model")
+
+    # ---------------- round 3: the float kernel never invents a link ---------------------------
+    # Data on which every difference x[k]-x[i], t[k]-t[i] is a float32 number (ExactDiffs, decided
+    # by the Lean driver) but distinct slopes may round to the same float32 (nearly collinear
+    # samples).  Theorem nvg_float_subgraph: for a monotone rounding the links of the float kernel
+    # are links of the exact graph.  Checked on the compiled kernels against the Fraction
+    # criterion; also counted: how often the inclusion is proper.
+    sreqs, scases = [], []
+    for c in range(150 if quick else 1500):
+        n = rng.randrange(3, 14)
+        tt = [Fr(0)]
+        for _ in range(n - 1):
+            tt.append(tt[-1] + rng.choice([Fr(1, 2), 1, 1, 2, 3]))
+        if tt[-1] > 8:
+            sc = Fr(1, 4)
+            tt = [v * sc for v in tt]
+        kind = rng.choice(["nearcollinear", "nearcollinear", "grid"])
+        if kind == "nearcollinear":
+            sl = rng.choice([Fr(1), Fr(-1), Fr(1, 2), Fr(3)])
+            xx = [sl * v + Fr(rng.randint(0, 3), 2 ** 19) for v in tt]
+        else:
+            xx = [Fr(rng.randint(0, 1023), 1024) for _ in range(n)]
+        m = [rng.random() < 0.15 for _ in range(n)]
+        xn = [None if mm else v for v, mm in zip(xx, m)]
+        try:
+            f32(xx), f32(tt)
+        except ValueError:
+            ctx.count("generator:rejected-not-float32-exact")
+            continue
+        sreqs.append(f"exactdiffs {n} {enc_vals(xn)} {enc_vals(tt)}")
+        scases.append((kind, xn, tt, m))
+    sans = common.driver(ctx.pid, sreqs)
+    proper = 0
+    for (kind, xn, tt, m), ex in zip(scases, sans):
+        if ex != "1":
+            ctx.count("float32:subgraph-data-without-exact-differences")
+            continue
+        n = len(xn)
+        A = np.zeros((n, n), dtype=np.int8)
+        K._visibility_relations_missingvalues(f32(xn), f32(tt), n, A, np.array(m, dtype=bool))
+        E = expected_adjacency(xn, tt, False)
+        ctx.count("float32:subgraph-" + kind)
+        ctx.case(("subgraph", tuple(xn), tuple(tt)), True)
+        if np.any((A == 1) & (E == 0)):
+            prs = [(int(a), int(b)) for a, b in zip(*np.nonzero((A == 1) & (E == 0))) if a < b]
+            ctx.fail({"kind": "kernel", "kernel": "_visibility_relations_missingvalues",
+                      "clause": "float32-subgraph"},
+                     f"the float kernel links {prs[:4]} although an intermediate sample is not below "
+                     "the chord (differences exact in float32)",
+                     {"x": [enc_fr(v) for v in xn], "t": [enc_fr(v) for v in tt],
+                      "expected": enc_mat(E), "observed": enc_mat(A)})
+        elif not np.array_equal(A, E):
+            proper += 1
+    ctx.extra["float32_subgraph"] = {"cases_with_exact_differences": sum(a == "1" for a in sans),
+                                     "proper_subgraph": proper}
+
+    # ---------------- round 3: horizontal graph on float64 callers' data ------------------------
+    # The horizontal kernel only compares samples, so the float64 -> float32 conversion of the
+    # constructor (to_cy) is harmless whenever it keeps the order of the samples (theorem
+    # hvg_order_invariant).  Random doubles (not float32 numbers): the constructor against
+    # (a) the exact criterion on the *float64* values, (b) the Lean model `kernelH` of the series
+    # rounded by rndF32 (ties the model's rndF32 to the conversion the code performs).
+    hq, hi_ = [], []
+    for c in range(60 if quick else 600):
+        n = rng.randrange(2, 12)
+        xs = nprng.rand(n) * 2.0 ** rng.randint(-30, 30)
+        if rng.random() < 0.3:
+            xs[rng.randrange(n)] = xs[rng.randrange(n)]          # an exact tie
+        if rng.random() < 0.3:
+            xs[rng.randrange(n)] = np.nan
+        x32 = xs.astype(np.float32).astype(np.float64)
+        with np.errstate(invalid="ignore"):
+            keeps = np.array_equal(np.sign(xs[:, None] - xs[None, :]),
+                                   np.sign(x32[:, None] - x32[None, :]), equal_nan=True)
+        if not keeps:
+            ctx.count("float64:conversion-merges-samples")
+            continue
+        missing = bool(np.isnan(xs).any())
+        vg = VG(xs, horizontal=True, missing_values=missing, silence_level=3)
+        A = np.array(vg.adjacency)
+        xe = [None if np.isnan(v) else Fr(float(v)) for v in xs]
+        E = expected_adjacency(xe, [Fr(i) for i in range(n)], True)
+        ctx.count("float64:horizontal-generic-doubles")
+        ctx.case(("hvg64", xs.tobytes().hex()), True)
+        if not np.array_equal(A, E):
+            ctx.fail(sig(missing, True, "float64-caller-data", missing),
+                     "horizontal graph of float64 data (order kept by the float32 conversion) differs "
+                     "from the exact criterion", {"x": [float(v) for v in xs], "expected": enc_mat(E),
+                                                  "observed": enc_mat(A)})
+        if not missing:
+            hq.append(f"hvgf32 {n} {enc_vals(xe)}")
+            hi_.append(enc_mat(A))
+    ctx.correspond("Lean kernelH on the rndF32-converted series == VisibilityGraph(horizontal=True) on "
+                   "float64 callers' data", hq, hi_)
+    phase("float-subgraph+horizontal-float64")
 
 
 def replay(ctx, rp):
